@@ -1430,8 +1430,13 @@ def python_tables() -> tuple[str, dict]:
     import mypy.build  # noqa: F401  (import order: avoids mypy's types/expandtype import cycle)
     import mypyc.primitives.int_ops  # noqa: F401  (registers the ops)
     from mypyc.ir.ops import ComparisonOp
-    from mypyc.ir.rtypes import (int16_rprimitive, int32_rprimitive, int64_rprimitive, int_rprimitive,
-                                 is_int_rprimitive, uint8_rprimitive)
+    import mypyc.primitives.float_ops as _float_ops
+    import mypyc.primitives.int_ops as _int_ops
+    from mypyc.ir.ops import PrimitiveDescription
+    from mypyc.ir.rtypes import (float_rprimitive, int16_rprimitive, int32_rprimitive, int64_rprimitive, int_rprimitive,
+                                 is_fixed_width_rtype, is_float_rprimitive, is_int_rprimitive, uint8_rprimitive)
+    from mypyc.primitives import registry as _registry
+    from mypyc.primitives.registry import CFunctionDescription
     from mypyc.lower.int_ops import int_comparison_op_mapping
     from mypyc.primitives.registry import binary_ops, unary_ops
 
@@ -1455,7 +1460,25 @@ def python_tables() -> tuple[str, dict]:
                          bool(d.c_func_negated), bool(d.c_func_swap_operands)))
     errs = [("int", int_rprimitive.c_undefined), ("i64", int64_rprimitive.c_undefined),
             ("i32", int32_rprimitive.c_undefined), ("i16", int16_rprimitive.c_undefined),
-            ("u8", uint8_rprimitive.c_undefined)]
+            ("u8", uint8_rprimitive.c_undefined), ("float", float_rprimitive.c_undefined)]
+    # numeric primitives whose result type has an *overlapping* error value (every bit pattern is a legitimate result)
+    tname = {"builtins.float": "float"}
+    native_rows: dict[tuple[str, str], tuple[str, int]] = {}
+
+    def native(t: object) -> bool:
+        return is_fixed_width_rtype(t) or is_float_rprimitive(t)      # type: ignore[arg-type]
+
+    for mod in (_int_ops, _float_ops):
+        for k, v in vars(mod).items():
+            if isinstance(v, (CFunctionDescription, PrimitiveDescription)) and native(v.return_type) and v.c_function_name:
+                native_rows[(k, v.c_function_name)] = (tname.get(v.return_type.name, v.return_type.name), v.error_kind)
+    for regname in ("binary_ops", "unary_ops", "function_ops", "method_call_ops"):
+        for k, lst in getattr(_registry, regname, {}).items():
+            for v in lst:
+                c = v.c_function_name or ""
+                if native(v.return_type) and c.startswith(("CPyTagged_", "CPyFloat_", "CPyInt", "CPyLong_As")):
+                    native_rows[(regname + ":" + k, c)] = (tname.get(v.return_type.name, v.return_type.name), v.error_kind)
+    native_list = sorted((k[0], k[1], v[0], v[1]) for k, v in native_rows.items())
     lines = ["/-- `mypyc.primitives.registry.binary_ops` restricted to `(int, int)` operands with a C function:",
              "    (Python operator, C function, error kind). -/",
              "def intBinaryOps : List (String × String × Nat) := ["]
@@ -1470,7 +1493,12 @@ def python_tables() -> tuple[str, dict]:
     lines += ["", "/-- `RPrimitive.c_undefined`: the error value of each native type as C text. -/",
               "def cUndefined : List (String × String) := ["]
     lines.append(",\n".join(f'  ("{a}", "{esc(b)}")' for a, b in errs) + "]")
-    meta = {"binary": bin_rows, "unary": un_rows, "comparison": cmp_rows, "c_undefined": errs}
+    lines += ["", "/-- Numeric primitives (mypyc.primitives.int_ops / float_ops and the CPyTagged_/CPyFloat_/CPyInt*/CPyLong_As*",
+              "    entries of the registries) whose result type is a native int or float: (description, C function, result",
+              "    type, error kind).  For these types the error value overlaps with ordinary results. -/",
+              "def nativeResultOps : List (String × String × String × Nat) := ["]
+    lines.append(",\n".join(f'  ("{esc(a)}", "{esc(b)}", "{c}", {d})' for a, b, c, d in native_list) + "]")
+    meta = {"binary": bin_rows, "unary": un_rows, "comparison": cmp_rows, "c_undefined": errs, "native_result_ops": native_list}
     return "\n".join(lines), meta
 
 
